@@ -10,7 +10,8 @@ RULE = ("exhaustive part (every tier): every Boolean function of 1, 2 and 3 vari
         "helper part: all/any/none/one/presence/absence/true/false with every kind of `which` argument (None, int, list, empty list) for N<=4; "
         "random part: formula trees over 2..4 (mostly 4) variables with ~ & | ^, the helpers as leaves, depth <= 5, with intermediate "
         "rounding on every binary node (mode round | round_tt | round_tucker) or none (without TT rounding the predicted TT ranks of f, g and of the products f&~g the predicates form are capped at 600), under default dtype "
-        "float64 (float32 only for round-free, xor-free formulas whose arithmetic is exact on small integers). "
+        "float64 (float32 only for round-free, xor-free formulas whose arithmetic is exact on small integers); a quarter as many additional "
+        "un-rounded depth-3 formulas with 70% ^ connectives. "
         "Per formula: decompressed table vs NumPy truth table (1e-9; 1e-5 under float32), tn.sum vs number of satisfying assignments, "
         "is_tautology/is_contradiction/is_satisfiable, implies/equiv against a second formula, relevant_symbols/irrelevant_symbols vs the "
         "variables the table depends on, only(t) vs table AND (all irrelevant variables false). "
@@ -79,14 +80,18 @@ def rnd_leaf(rng, N):
     return [h, rnd_which(rng, N)]
 
 
-def rnd_tree(rng, N, depth, allow_xor=True):
+def rnd_tree(rng, N, depth, allow_xor=True, p_xor=None):
+    """p_xor: probability of ^ among the binary connectives (default: uniform over & | ^)"""
     if depth == 0 or rng.random() < 0.15:
         return rnd_leaf(rng, N)
     r = rng.random()
     if r < 0.2:
-        return ["not", rnd_tree(rng, N, depth - 1, allow_xor)]
-    op = rng.choice(BIN if allow_xor else ["and", "or"])
-    return [op, rnd_tree(rng, N, depth - 1, allow_xor), rnd_tree(rng, N, depth - 1, allow_xor)]
+        return ["not", rnd_tree(rng, N, depth - 1, allow_xor, p_xor)]
+    if p_xor is not None and allow_xor:
+        op = "xor" if rng.random() < p_xor else rng.choice(["and", "or"])
+    else:
+        op = rng.choice(BIN if allow_xor else ["and", "or"])
+    return [op, rnd_tree(rng, N, depth - 1, allow_xor, p_xor), rnd_tree(rng, N, depth - 1, allow_xor, p_xor)]
 
 
 def pred_rank(tree):
@@ -165,6 +170,17 @@ def cases(rng, tier):
         else:
             tree, other = ["sym", 0], ["true"]
         out.append({"kind": "random", "N": N, "tree": tree, "other": other, "rounding": rounding, "dd": dd})
+    # stratum: un-rounded formulas rich in ^ (the only connective whose cores are not integers: 2*a*b is scaled by 2**(1/N) per core)
+    for i in range(nr // 4):
+        N = rng.choice([3, 4, 4])
+        for _ in range(200):
+            tree = rnd_tree(rng, N, 3, p_xor=0.7)
+            other = rnd_tree(rng, N, rng.randint(1, 2), p_xor=0.7)
+            if fits(tree, other):
+                break
+        else:
+            tree, other = ["sym", 0], ["true"]
+        out.append({"kind": "random", "N": N, "tree": tree, "other": other, "rounding": None, "dd": "float64"})
     return out
 
 
@@ -370,7 +386,7 @@ def run_case(ctx, case):
                 continue
             if bool(r) != exp:
                 ctx.count("pred_mismatch:" + name)
-                ctx.oracle("%s = %s, truth tables say %s" % (name, bool(r), exp), case, cls={"op": name.split("(")[0], "predicate": gcls})
+                ctx.oracle("%s = %s, truth tables say %s" % (name, bool(r), exp), case, cls={"op": "implies/equiv", "predicate": gcls})
     else:
         ctx.count("second_formula_unusable")
 
@@ -381,7 +397,9 @@ def run_case(ctx, case):
     rel_bad = rel is not None and sorted(rel) != rel_exp
     if rel_bad:
         ctx.count("relevant_mismatch")
-        ctx.oracle("relevant_symbols = %s, the table depends on %s" % (rel, rel_exp), case, cls={"op": "relevant_symbols", "predicate": ocls})
+        # with Tucker factors the routine reads the wrong axis (format class); on plain TT a wrong answer is a threshold/noise class
+        ctx.oracle("relevant_symbols = %s, the table depends on %s" % (rel, rel_exp), case,
+                   cls={"op": "relevant_symbols", "predicate": ocls if any(U is not None for U in f.Us) else ncls})
     irr = call("irrelevant_symbols", lambda: [int(n) for n in tn.irrelevant_symbols(f)])
     if irr is not None and sorted(irr) != irr_exp and rel_bad:
         ctx.count("irrelevant_mismatch(consequence of relevant_symbols)")   # irrelevant_symbols = complement of relevant_symbols: same defect
